@@ -31,7 +31,10 @@ AllLeaks == {"ErrCodeInt", "IntInf", "NullInArray", "ArraySizeInt",
              "CimvalueRaw", "RetvalParamtypeKey", "PullEmptyResponse",
              "EnumInstNoPath", "ResultIndexing", "PullNoTypeCheck",
              "ExpatEncoding", "RedirectUrl", "Recursion", "MethodMisc",
-             "EmbTypes"}
+             "EmbTypes",
+             "RealBigInt",      \* unpack_numeric: RealNN(int of > 308 digits)
+             "HexLongMsg",      \* unpack_numeric: message formats a huge int
+             "ParamNamedElem"}  \* PARAMVALUE named like a sibling element
 (* leaks present in the tree this suite was built against (IntInf was      *)
 (* repaired by "fix: CIM integer types raised OverflowError ...")           *)
 PinnedLeaks == AllLeaks \ {"IntInf"}
@@ -60,13 +63,26 @@ NumUnpack(lk, ty, cls) ==
     [] cls = "long" -> IF IsReal(ty) THEN P
                        ELSE P \cup L(lk, "IntInf", {"OverflowError"}, X)
     [] cls = "junk" -> P \cup X      \* str.strip() also drops U+00A0
+    (* integer lexemes of 310..4300 digits (hex: any length): int() takes    *)
+    (* them; RealNN(int) = float(int) overflows, UintNN(int) is a range error *)
+    [] cls \in {"big", "negbig", "hexbig"} ->
+         IF IsReal(ty) THEN L(lk, "RealBigInt", {"OverflowError"}, X) ELSE X
+    (* hex lexeme whose value has more than 4300 decimal digits: int(s, 16)   *)
+    (* has no digit limit, but the range error message formats the int        *)
+    [] cls = "hexlong" ->
+         IF IsReal(ty) THEN L(lk, "RealBigInt", {"OverflowError"}, X)
+         ELSE L(lk, "HexLongMsg", {"ValueError"}, X)
+    (* not an int() lexeme: float() gives inf / 0.0                           *)
+    [] cls \in {"fracbig", "expbig"} ->
+         IF IsReal(ty) THEN P ELSE L(lk, "IntInf", {"OverflowError"}, X)
+    [] cls = "expneg" -> P
     [] OTHER -> X          \* empty, ws, alpha
 NumUntyped(cls) == IF cls \in {"empty", "ws", "alpha"} THEN X
                    ELSE IF cls = "junk" THEN P \cup X ELSE P
 NumCimvalue(lk, ty, cls) ==
   LET bad == L(lk, "CimvalueRaw", {"ValueError"}, X) IN
   IF IsReal(ty)
-  THEN IF cls \in {"hex", "empty", "ws", "alpha"} THEN bad
+  THEN IF cls \in {"hex", "hexbig", "hexlong", "empty", "ws", "alpha"} THEN bad
        ELSE IF cls = "junk" THEN P \cup bad ELSE P
   ELSE CASE cls \in {"dec", "plus", "usc", "udig"} -> P
          [] cls = "junk" -> P \cup bad
@@ -155,6 +171,50 @@ ResultOut(lk, shape, elem) ==
 
 SingleShapes == {"inst", "instname", "class", "qualdecl"}
 
+(* ---- PARAMVALUE children of the response element (kind o_pv) ------------- *)
+(* list_of_various() turns an ERROR / IRETURNVALUE / RETURNVALUE child into  *)
+(* (element name, attrs, content) and a PARAMVALUE child into (NAME,         *)
+(* paramtype, value); _imethodcall / _methodcall / _get_rslt_params and the  *)
+(* operations tell the nodes apart by item 0 only.  Leak ParamNamedElem: a   *)
+(* PARAMVALUE named like a sibling element is taken for that element.        *)
+PvFront(pos) == pos \in {"only", "first", "forret"}   \* child number 1
+PyMisuse == {"TypeError", "AttributeError", "BADTYPE"}
+(* `for x in value` of the list operations / `value[0]` of the single ones,  *)
+(* value = whatever object the PARAMVALUE held                                *)
+FakeIter(kid) ==
+  IF kid \in {"none", "CLASS", "CLASSNAME"} THEN {"TypeError"}
+  ELSE P \cup X \cup PyMisuse
+FakeIndex(kid) ==
+  IF kid = "none" THEN X                    \* `if not result`
+  ELSE IF kid \in {"CLASS", "CLASSNAME"} THEN {"TypeError"}
+  ELSE P \cup X \cup PyMisuse
+PvOut(lk, shape, d) ==
+  LET pos == d.site
+      nm == d.ty
+      kid == d.cls
+      lky(s) == L(lk, "ParamNamedElem", s, X)   \* repaired: name rejected
+  IN
+  CASE nm = "ERROR" ->
+         IF PvFront(pos) THEN lky({"TypeError"})      \* err[1]['CODE']
+         ELSE IF shape = "method" THEN lky(P \cup X)
+         ELSE IF shape \in PullShapes THEN lky(P)     \* unknown names ignored
+         ELSE X                                       \* no output parameters
+    [] nm = "RETURNVALUE" ->                          \* shape = "method"
+         IF PvFront(pos) THEN lky({"AttributeError"}) \* paramtype.get()
+         ELSE lky(P \cup X)
+    [] nm = "IRETURNVALUE" ->
+         IF shape = "void" THEN X
+         ELSE IF shape \in PullShapes
+         THEN CASE pos = "first" -> lky(P)       \* the later IRETURNVALUE wins
+                [] pos = "only" -> X             \* no EndOfSequence / context
+                [] OTHER -> lky(FakeIter(kid))
+         ELSE IF pos = "last" THEN lky(P)        \* result[0] is the element
+         ELSE IF shape \in SingleShapes THEN lky(FakeIndex(kid))
+         ELSE lky(FakeIter(kid))
+    [] OTHER ->       \* EndOfSequence, EnumerationContext, QueryResultClass, other
+         IF shape = "method" \/ shape \in PullShapes THEN P \cup X
+         ELSE X                                       \* no output parameters
+
 (* ---- the table: impl stage at which a defect is noticed, and the result - *)
 DefStage(shape, d) ==
   CASE d.k = "t_exc" -> "send"
@@ -180,6 +240,12 @@ DefStage(shape, d) ==
          IF d.cls \in {"attr", "text", "irv_in_param", "mixed"} THEN "parse"
          ELSE IF d.cls \in {"missing", "empty"} /\ shape # "void"
               THEN "result" ELSE "shapechk"
+    [] d.k = "o_pv" ->
+         IF d.ty = "ERROR" /\ PvFront(d.site) THEN "error"
+         ELSE IF shape = "method" THEN "method"
+         ELSE IF shape \in PullShapes \/
+                 (d.ty = "IRETURNVALUE" /\ shape # "void") THEN "result"
+         ELSE "shapechk"
     [] d.k \in {"p_eos", "p_ctx"} -> "result"
     [] d.k = "p_misc" ->
          IF d.cls \in {"noname", "twokids", "badchild", "embattr"}
@@ -315,6 +381,7 @@ DefOut(lk, shape, d) ==
                 IF shape \in SingleShapes \cup {"void"} THEN X ELSE P
            [] d.cls \in {"dup", "many"} -> IF shape = "void" THEN X ELSE P
            [] OTHER -> IF shape \in PullShapes THEN P \cup X ELSE X
+    [] d.k = "o_pv" -> PvOut(lk, shape, d)
     [] d.k = "p_eos" ->
          CASE d.cls \in {"bogus", "emptyval", "false_noctx", "ws", "one"} -> X
            [] d.cls = "missing_both" ->
